@@ -197,6 +197,7 @@ impl World {
 
     fn finish(&mut self, out: Out) -> Value {
         match out {
+            Out::Json(v) => v,
             Out::Unit(Ok(())) => res_ok(0),
             Out::Unit(Err(e)) => res_err(&e),
             Out::Elem(Ok(e)) => {
@@ -640,6 +641,13 @@ pub fn run_guarded(job: Job, timeout: Duration) -> Guarded {
     if HANGS.load(std::sync::atomic::Ordering::Relaxed) >= HANG_BUDGET {
         return Guarded::Skipped;
     }
+    if std::env::var("VH_INLINE").is_ok() {
+        // run on the calling thread (its stack size is what is being tried); panics are still data
+        return match std::panic::catch_unwind(std::panic::AssertUnwindSafe(job)) {
+            Ok(out) => Guarded::Done(out),
+            Err(p) => Guarded::Panic(p.downcast_ref::<String>().cloned().or(p.downcast_ref::<&str>().map(|s| s.to_string())).unwrap_or_default()),
+        };
+    }
     EXEC.with(|cell| {
         let mut slot = cell.borrow_mut();
         if slot.is_none() {
@@ -663,6 +671,7 @@ pub fn run_guarded(job: Job, timeout: Duration) -> Guarded {
 }
 
 pub enum Out {
+    Json(Value),
     Unit(Result<(), AutosarDataError>),
     Elem(Result<Element, AutosarDataError>),
     File(Result<ArxmlFile, AutosarDataError>),
